@@ -52,6 +52,55 @@ Proof.
   assert (d = 1) by lia. subst. lia.
 Qed.
 
+(* sqn (keep the sizes different from 1: the repaired tensor.squeeze) — index lemmas for EVERY shape, size-0 modes included *)
+Lemma sqn_sqz {A} s (l : list A) : forallb (Nat.ltb 0) s = true -> sqn s l = sqz s l.
+Proof.
+  revert l; induction s as [|d s IH]; intros [|x l] H; cbn [sqn sqz]; auto.
+  cbn [forallb] in H. apply andb_true_iff in H as [H1 H2]. apply Nat.ltb_lt in H1. rewrite (IH l H2).
+  destruct (Nat.eqb_spec d 1) as [->|Hd]; [reflexivity|].
+  destruct (Nat.ltb_spec 1 d); [reflexivity|lia].
+Qed.
+
+Lemma ne1_lt1 s : forallb (Nat.ltb 0) s = true ->
+  forallb (fun d => negb (Nat.eqb d 1)) s = forallb (Nat.ltb 1) s.
+Proof.
+  induction s as [|d s IH]; [reflexivity|]. cbn [forallb]. intros H. apply andb_true_iff in H as [H1 H2].
+  apply Nat.ltb_lt in H1. rewrite (IH H2). f_equal.
+  destruct (Nat.eqb_spec d 1) as [->|Hd]; [reflexivity|]. destruct (Nat.ltb_spec 1 d); [reflexivity|lia].
+Qed.
+
+Lemma sqn_all {A} s (l : list A) : forallb (fun d => negb (Nat.eqb d 1)) s = true -> length l = length s -> sqn s l = l.
+Proof.
+  revert l; induction s as [|d s IH]; intros [|x l] H HL; cbn in *; try discriminate; auto.
+  apply andb_true_iff in H as [H1 H2]. apply negb_true_iff in H1. rewrite H1. f_equal. apply IH; auto.
+Qed.
+
+Lemma sqn_size s : size (sqn s s) = size s.
+Proof.
+  induction s as [|d s IH]; cbn [sqn]; auto.
+  destruct (Nat.eqb_spec d 1) as [->|Hd]; rewrite !size_cons, ?IH; lia.
+Qed.
+
+Lemma sqn_index s i : inb s i = true ->
+  sub2ind (sqn s s) (sqn s i) = sub2ind s i /\ inb (sqn s s) (sqn s i) = true.
+Proof.
+  revert i; induction s as [|d s IH]; intros [|x i] H; cbn [inb] in H; try discriminate.
+  - cbn. auto.
+  - apply andb_true_iff in H as [Hx Hi]. apply Nat.ltb_lt in Hx.
+    destruct (IH _ Hi) as (E1 & E2). cbn [sqn].
+    destruct (Nat.eqb_spec d 1) as [->|Hd].
+    + assert (x = 0) by lia. subst x. cbn [sub2ind]. split; auto; lia.
+    + cbn [sub2ind inb]. rewrite E1, E2.
+      split; auto. apply andb_true_iff; split; auto. now apply Nat.ltb_lt.
+Qed.
+
+Lemma sqn_has_zero s : In 0 s -> In 0 (sqn s s).
+Proof.
+  induction s as [|d s IH]; [intros []|]. intros [->|H]; cbn [sqn].
+  - cbn. auto.
+  - destruct (Nat.eqb d 1); [now apply IH|right; now apply IH].
+Qed.
+
 (* ------------------------------------------------------------------ dense *)
 Section Dense.
 Context {V : Type} (v0 : V).
@@ -144,6 +193,58 @@ Proof.
       with (mkDense s (ddata (np_reshapeF v0 (np_reshapeF v0 (mkDense s d) s') s))). now rewrite E.
 Qed.
 
+(* the formulation of tensor.squeeze before /repo 649a706 (tests `shape > 1`): the same function on positive sizes *)
+Definition squeeze_d_pos (T : dense V) : sq_res (V:=V) (dense V) :=
+  let s := dshape T in
+  if forallb (Nat.ltb 1) s then SqT T
+  else match sqz s s with
+       | [] => SqScalar (nth 0 (ddata T) v0)
+       | s' => SqT (mkDense s' (ddata T))
+       end.
+
+Lemma squeeze_d_pos_eq (T : dense V) : forallb (Nat.ltb 0) (dshape T) = true -> squeeze_d v0 T = squeeze_d_pos T.
+Proof. intros H. unfold squeeze_d, squeeze_d_pos. now rewrite (ne1_lt1 _ H), (sqn_sqz _ _ H). Qed.
+
+(* tensor.squeeze on EVERY shape (size-0 modes included: they are kept; N-C07-6 repaired): the modes of size 1 are dropped,
+   the F-order data is unchanged, every entry keeps its value at the squeezed subscript; a scalar exactly when every mode
+   is a singleton *)
+Theorem squeeze_dense_any (T : dense V) : wf_dense T ->
+  match squeeze_d v0 T with
+  | SqT R => wf_dense R /\ dshape R = sqn (dshape T) (dshape T) /\ ddata R = ddata T /\
+             (forall i, inb (dshape T) i = true ->
+                inb (dshape R) (sqn (dshape T) i) = true /\ den_dense v0 R (sqn (dshape T) i) = den_dense v0 T i)
+  | SqScalar v => sqn (dshape T) (dshape T) = [] /\ (forall i, inb (dshape T) i = true -> v = den_dense v0 T i)
+  end.
+Proof.
+  intros W. unfold squeeze_d. destruct (forallb (fun d => negb (Nat.eqb d 1)) (dshape T)) eqn:Hall.
+  - split; auto. split; [now rewrite sqn_all|]. split; auto. intros i Hi.
+    rewrite sqn_all by (auto; now apply inb_length). auto.
+  - destruct (sqn (dshape T) (dshape T)) as [|d s'] eqn:Es.
+    + split; auto. intros i Hi. destruct (sqn_index _ _ Hi) as (E1 & _). rewrite Es in E1.
+      unfold den_dense. rewrite Hi, <- E1. now destruct (sqn (dshape T) i).
+    + split; [|split; [reflexivity|split; [reflexivity|]]].
+      * unfold wf_dense. cbn [ddata dshape]. rewrite <- Es, sqn_size. exact W.
+      * intros i Hi. destruct (sqn_index _ _ Hi) as (E1 & E2). cbn [dshape]. rewrite <- Es. split; auto.
+        unfold den_dense. cbn [dshape ddata]. rewrite E2, Hi, E1. reflexivity.
+Qed.
+
+(* a holder with a mode of size 0 (no element): squeeze answers with a tensor that keeps every size-0 mode and holds no
+   element — never a scalar, never a refusal *)
+Theorem squeeze_dense_zero_mode (T : dense V) : wf_dense T -> In 0 (dshape T) ->
+  exists R, squeeze_d v0 T = SqT R /\ wf_dense R /\ dshape R = sqn (dshape T) (dshape T) /\ In 0 (dshape R) /\
+            ddata R = [] /\ ddata T = [].
+Proof.
+  intros W H0. pose proof (squeeze_dense_any T W) as H.
+  assert (Hd : ddata T = []).
+  { apply length_zero_iff_nil. unfold wf_dense in W. rewrite W. clear -H0.
+    induction (dshape T) as [|d s IH]; [destruct H0|]. rewrite size_cons. destruct H0 as [->|H0]; [lia|].
+    rewrite (IH H0). lia. }
+  destruct (squeeze_d v0 T) as [R|v].
+  - destruct H as (WR & Hs & Hdat & _). exists R. split; [reflexivity|]. split; [exact WR|]. split; [exact Hs|].
+    split; [rewrite Hs; now apply sqn_has_zero|]. split; [now rewrite Hdat|exact Hd].
+  - destruct H as [Hn _]. apply sqn_has_zero in H0. rewrite Hn in H0. destruct H0.
+Qed.
+
 Theorem squeeze_dense_correct (T : dense V) : wf_dense T -> forallb (Nat.ltb 0) (dshape T) = true ->
   match squeeze_d v0 T with
   | SqT R => wf_dense R /\ dshape R = sqz (dshape T) (dshape T) /\ ddata R = ddata T /\
@@ -152,16 +253,11 @@ Theorem squeeze_dense_correct (T : dense V) : wf_dense T -> forallb (Nat.ltb 0) 
   | SqScalar v => sqz (dshape T) (dshape T) = [] /\ (forall i, inb (dshape T) i = true -> v = den_dense v0 T i)
   end.
 Proof.
-  intros W Hpos. unfold squeeze_d. destruct (forallb (Nat.ltb 1) (dshape T)) eqn:Hall.
-  - split; auto. split; [now rewrite sqz_all|]. split; auto. intros i Hi.
-    rewrite sqz_all by (auto; now apply inb_length). auto.
-  - destruct (sqz (dshape T) (dshape T)) as [|d s'] eqn:Es.
-    + split; auto. intros i Hi. destruct (sqz_index _ _ Hi) as (E1 & _ & _). rewrite Es in E1.
-      unfold den_dense. rewrite Hi, <- E1. now destruct (sqz (dshape T) i).
-    + split; [|split; [reflexivity|split; [reflexivity|]]].
-      * unfold wf_dense. cbn [ddata dshape]. rewrite <- Es, sqz_size by auto. exact W.
-      * intros i Hi. destruct (sqz_index _ _ Hi) as (E1 & E2 & _). cbn [dshape]. rewrite <- Es. split; auto.
-        unfold den_dense. cbn [dshape ddata]. rewrite E2, Hi, E1. reflexivity.
+  intros W Hpos. pose proof (squeeze_dense_any T W) as H.
+  destruct (squeeze_d v0 T) as [R|v].
+  - destruct H as (WR & Hs & Hdat & Hden). rewrite (sqn_sqz _ _ Hpos) in Hs.
+    repeat split; auto; rewrite <- (sqn_sqz _ i Hpos); now apply Hden.
+  - rewrite (sqn_sqz _ _ Hpos) in H. exact H.
 Qed.
 
 End Dense.
@@ -586,14 +682,14 @@ Proof.
   destruct (squeeze_d v0 T) as [T'|a] eqn:ED; destruct (squeeze_sp v0 S) as [S'|b] eqn:ES.
   - destruct HD as (_ & HsT & _ & HdT). destruct HS as (HsS & _ & _ & _ & HdS). split; [now rewrite HsS, HsT, Hs|].
     intros i Hi. rewrite <- Hs in *. destruct (HdS i Hi) as [_ ->]. rewrite Hs in *. destruct (HdT i Hi) as [_ ->]. auto.
-  - destruct HD as (_ & HsT & _). destruct HS as (HsS & _). unfold squeeze_d in ED. rewrite Hs in HsS.
+  - destruct HD as (_ & HsT & _). destruct HS as (HsS & _). rewrite (squeeze_d_pos_eq v0 T Hpos) in ED. unfold squeeze_d_pos in ED. rewrite Hs in HsS.
     destruct (forallb (Nat.ltb 1) (dshape T)) eqn:Hall.
     + rewrite sqz_all in HsS by auto. rewrite HsS in Hex. cbn in Hex.
       rewrite HsS in Hall. cbn in Hall. unfold squeeze_sp in ES. rewrite Hs, HsS in ES. cbn in ES. discriminate.
     + rewrite HsS in ED. discriminate.
   - destruct HD as (HsT & _). destruct HS as (HsS & _). unfold squeeze_sp in ES. rewrite Hs in *.
     destruct (forallb (Nat.ltb 1) (dshape T)) eqn:Hall; [|rewrite HsT in ES; discriminate].
-    unfold squeeze_d in ED. rewrite Hall in ED. discriminate.
+    rewrite (squeeze_d_pos_eq v0 T Hpos) in ED. unfold squeeze_d_pos in ED. rewrite Hall in ED. discriminate.
   - destruct HD as (_ & HdT). destruct HS as (_ & HdS). rewrite Hs in HdS.
     rewrite (HdT _ Hex), (HdS _ Hex). symmetry. now apply Hag.
 Qed.
